@@ -299,6 +299,22 @@ theorem C09_scan_cache_refuses_repeated_labels (cf par : Bool) (s : Sched) (w : 
   unfold scanWith
   simp [hd]
 
+/-- `mc.scan_steady_state`: what a pool task computes for ONE Monte-Carlo row — copy the model, write the sample in,
+    run the sequential inner scan on that one object — is the NESTED independent runs: every inner row run separately
+    on a fresh copy of the sample's model `c1`, each result on its own cell of the task's heap, in inner-row order.
+    (The task's heap then travels to the parent, `transplant`; reading the views there is `C09_rows_equal_independent_runs`
+    for the heap `[c, c1]`.) -/
+theorem C09_mc_scan_rows_are_nested_independent_runs (w : Worker) (inner : List (Label × Row)) (c : Content)
+    (sample : Row) :
+    mcScanChild shippedCopyFirst w inner c sample =
+      match applyRow c sample with
+      | .error e => .error e
+      | .ok c1 => independentRuns w [c, c1] c1 inner := by
+  rw [shippedCopyFirst_eq, mcScanChild_char]
+  cases applyRow c sample with
+  | error e => rfl
+  | ok c1 => rfl
+
 /-! ### facts regenerated from scan.py / mc.py / parallel.py on every run (`translate/c09.py` → `Generated/C09Facts.lean`) -/
 
 open Mxl.Generated.C09 in
